@@ -8,7 +8,7 @@ import re
 from ..cfg import build_cfg, calls_in, node_calls
 from ..core import Ctx, property_info, rule, share
 from ..model import AnalysisError, FuncInfo, const_str, walk_no_nested
-from ..q import Dispatch, cmp_atom, node_containing, reach_table, L, call_name_of, control_deps, dep_texts, expand, family, raw_forms, subject, dict_literals, flow_conditions, flows, A, asrc, enum_members, is_self_attr, kwarg, stores, unparse
+from ..q import Dispatch, keyed_values, leaf_conditions, value_texts, cmp_atom, node_containing, reach_table, L, call_name_of, control_deps, dep_texts, expand, family, raw_forms, subject, dict_literals, flow_conditions, flows, A, asrc, enum_members, is_self_attr, kwarg, stores, unparse
 from .c12 import renumbering_is_last
 
 FIL = "xsdata.formats.dataclass.filters:Filters"
@@ -273,7 +273,7 @@ def attribute_namespace_agreement(ctx: Ctx) -> None:
     rn = ctx.repo.func(f"{BLD}.resolve_namespaces")
     # under which field kinds can `namespace = parent_namespace` run?  (partial evaluation over the xml_type parameter)
     dk = Dispatch(rn.node, is_subject=lambda e: isinstance(e, ast.Name) and e.id == "xml_type")
-    inh_nodes = [n.id for n in dk.g.stmts() if isinstance(n.ast, ast.Assign) and isinstance(n.ast.targets[0], ast.Name) and n.ast.targets[0].id == "namespace" and unparse(n.ast.value) == "parent_namespace"]
+    inh_nodes = [n.id for n in dk.g.stmts() if isinstance(n.ast, ast.Assign) and isinstance(n.ast.targets[0], ast.Name) and unparse(n.ast.value) == "parent_namespace"]  # whichever local takes the inherited value
     default_ids = {n.id for n in dk.under(None)}
     inherit = {k.split(".")[-1] for k in dk.keys if any(i in {n.id for n in dk.under(k)} for i in inh_nodes)} if inh_nodes and not any(i in default_ids for i in inh_nodes) else {"<every kind>"}
     ctx.ob("runtime: only ELEMENT and WILDCARD fields inherit the parent namespace", inherit == {"ELEMENT", "WILDCARD"}, at=rn, construct="runtime inheritance", msg=f"inheriting kinds {sorted(inherit)}")
@@ -305,16 +305,10 @@ def attribute_namespace_agreement(ctx: Ctx) -> None:
     fc0 = ctx.repo.func(f"{FIL}.field_choices")
     ok = False
     for fc in family(ctx.repo, fc0):
-      gc = build_cfg(fc.node)
-      for n in gc.stmts():
-        if n.ast is None or n.kind != "stmt":
-            continue
-        for dct in [x for x in ast.walk(n.ast) if isinstance(x, ast.Dict)]:
-            for k, v in zip(dct.keys, dct.values):
-                if isinstance(k, ast.Constant) and k.value == "namespace":
-                    leaves = [(L(fc, leaf), flow_conditions(fc, n, chain)) for leaf, chain in flows(fc, n, v)]
-                    differs = lambda conds, want: any(("_.namespace" in t and "!=" in t and pol == want) or ("_.namespace" in t and "==" in t and "!=" not in t and pol != want) for t, pol in conds)  # noqa: E731
-                    ok = {x for x, _ in leaves} == {"_.namespace", "None"} and all(differs(c, True) for x, c in leaves if x == "_.namespace")
+        leaves = [(L(fc, leaf), leaf_conditions(fc, n, leaf, chain)) for n, v in keyed_values(fc, "namespace") for leaf, chain in flows(fc, n, v)]
+        if leaves:
+            differs = lambda conds, want: any(("_.namespace" in t and "!=" in t and pol == want) or ("_.namespace" in t and "==" in t and "!=" not in t and pol != want) for t, pol in conds)  # noqa: E731
+            ok = {x for x, _ in leaves} == {"_.namespace", "None"} and all(differs(c, True) for x, c in leaves if x == "_.namespace")
     ctx.ob("generator: a choice's namespace is omitted only when equal to the parent namespace (choices are elements / wildcards)", ok, at=fc0, construct="choice namespace", msg="choice namespace rule changed")
     # substitution groups are followed transitively
     cs = ctx.repo.func("xsdata.codegen.handlers.add_attribute_substitutions:AddAttributeSubstitutions.create_substitution")
@@ -339,13 +333,21 @@ def handler_state_discipline(ctx: Ctx) -> None:
     from .c14 import _control_sources, _flow_sources
 
     cs = ctx.repo.func("xsdata.codegen.handlers.add_attribute_substitutions:AddAttributeSubstitutions.create_substitutions")
-    g = build_cfg(cs.node)
-    outer = [n for n in g.nodes if n.kind == "for" and unparse(n.ast.iter) == "self.container"]
-    inner = [n for n in g.nodes if n.kind == "for" and unparse(n.ast.iter).endswith(".substitutions")]
-    # the registration loop runs for every class: it depends on no test - except a test of the very collection it iterates (skipping
-    # classes without substitutions is not a filter)
-    ok = len(outer) == 1 and len(inner) == 1 and outer[0].id in {p_ for p_ in g.reachable([inner[0].id], forward=False)} and all(
-        ".substitutions" in unparse(t.ast) for _, _, t in control_deps(cs, inner[0]))
+    # the registration loops: over the container's classes and, inside, over each class's substitutions - in create_substitutions or in a
+    # helper it delegates the iteration to
+    ok = None
+    for cs_ in family(ctx.repo, cs):
+        g = build_cfg(cs_.node)
+        outer = [n for n in g.nodes if n.kind == "for" and "self.container" in value_texts(cs_, n, n.ast.iter)]
+        inner = [n for n in g.nodes if n.kind == "for" and any(t.endswith(".substitutions") for t in value_texts(cs_, n, n.ast.iter))]
+        if len(outer) == 1 and len(inner) == 1:
+            # the registration loop runs for every class: it depends on no test - except a test of the very collection it iterates (skipping
+            # classes without substitutions is not a filter)
+            ok = outer[0].id in {p_ for p_ in g.reachable([inner[0].id], forward=False)} and all(".substitutions" in unparse(t.ast) for _, _, t in control_deps(cs_, inner[0]))
+            break
+    if ok is None:
+        ctx.abstain("registration loops of create_substitutions", at=cs)
+        ok = True
     ctx.ob("create_substitutions registers the substitutions of EVERY class of the container (no tag filter)", ok, at=cs, construct="substitution registration",
            msg="the validator merges an element into its same-named complex type: filtering on the class tag drops those substitution-group members, and valid documents using them are rejected")
     n = 0
